@@ -50,8 +50,59 @@ DeepInv ==
                         f |-> [wi \in WorldIx |-> Code(per[wi].xl)] ]))
 
 WorldLine(wi) == [world |-> wi, root |-> Worlds[wi].root, nodes |-> Worlds[wi].nodes]
-GenWorlds == path = <<>> => /\ PrintT(ToJson([routes |-> RouteList, nostar |-> STATIC_NOSTAR, cat |-> Catalogue]))
+GenWorlds == path = <<>> => /\ PrintT(ToJson([routes |-> RouteList, nostar |-> STATIC_NOSTAR, cat |-> Catalogue, sizes |-> SizeOf]))
                             /\ \A wi \in WorldIx : PrintT(ToJson(WorldLine(wi)))
+
+\* ---- the sweep of W4 (names, escapes, sizes, prefix-like directories).  Here the state variable `path` holds the
+\*      relative request path itself (a byte string), taken from SweepSet; there is no Next.
+Escape(b, u1, u2) == <<PCT, IF u1 THEN HexDigitU(b \div 16) ELSE HexDigitL(b \div 16), IF u2 THEN HexDigitU(b % 16) ELSE HexDigitL(b % 16)>>
+\* every byte value as one escape, all four upper/lower-case combinations of its two hex digits, as a name below b/
+EscapeSweep == {N("b/") \o Escape(b, u1, u2) : b \in 0..255, u1 \in BOOLEAN, u2 \in BOOLEAN}
+\* every node of W4 under its spellings, directories also with a trailing slash (and a doubled one)
+NodeSweep == UNION { LET sp == Spellings(RelNames(W4, n)) IN
+                     IF n.k = "d" THEN sp \cup {x \o <<SLASH>> : x \in sp} \cup {x \o <<SLASH, SLASH>> : x \in sp}
+                     ELSE sp \cup {x \o <<SLASH>> : x \in sp}
+                   : n \in {m \in W4.nodes : IsPrefix(W4.root, m.p) /\ Len(m.p) > Len(W4.root)} }
+AbsCanary == JoinSlash(Append(AboveRoot, N("canary.txt")))           \* l1/l2/l3/l4/base/canary.txt
+AbsInside == JoinSlash(RootPath \o <<N("b"), N("a")>>)
+ExtraSweep == { <<>>, N("/"), N("static"), N("static/static"), N("staticstatic"), N("static/../static/index.html"), DU, DU \o N("/") \o DU, N("s"), N("ss"),
+                <<SLASH>> \o AbsCanary, <<SLASH, SLASH>> \o AbsCanary, N("%2f") \o AbsCanary, N("%2F%2f") \o AbsCanary, <<SLASH>> \o AbsInside, <<SLASH, SLASH>> \o AbsInside,
+                [i \in 1..256 |-> 110], N("z/empty.txt/."), N("x/.html/"), N("b/%2E"), N("b/%2e%2E"), N("b/%"), N("b/%4"), N("b/%4g"), N("b/%G1"), N("b/%+1"),
+                N("u/%C2%A0a.txt%20"), N("u/%20%C2%A0a.txt"), N("u/a%C2%A0"), N("u/a"), N("u/%E3%80%80"), N("x/x.HTML.TXT"), N("x/X.HTML.TXT"), N("B/a"), N("z/BIG.BIN") }
+\* `%+1`: Rust's from_str_radix accepts a sign; the property (and C18) say an escape is two hex digits.  Left out of the
+\* sweep when the code under test is known to differ there would hide nothing here: it is malformed, hence refused.
+SweepSet == EscapeSweep \cup NodeSweep \cup ExtraSweep
+SweepWorlds == <<W4>>
+SweepInit == path \in SweepSet
+SweepNext == FALSE /\ UNCHANGED path
+SweepFirst == CHOOSE x \in SweepSet : TRUE
+SweepInv ==
+  LET rel == path
+      fp == TryFindPrepD(Dev, rel)
+      lp == FilePathPrepD(Dev, <<SLASH>> \o rel)
+      ed == ExpectDecodingPrep(rel)
+      el == ExpectLiteralPrep(rel)
+      loc == TryFindOnD(Dev, W4, fp)
+      xd == ExpectDecodingOn(W4, ed)
+      xl == ExpectLiteralOn(W4, el)
+  IN
+  /\ PrefixRuleAt(rel)
+  /\ GuardSoundAt(SweepWorlds, rel)
+  /\ SharedIsHandleAt(SweepWorlds, rel)
+  /\ \A tg \in Targets :
+        LET a == AnswerAt(W4, tg, rel, loc, lp) IN
+        /\ ConfinedAnswer(W4, a)
+        /\ Conforms(IF tg[1] = "file_path" THEN xl ELSE xd, UriFor(tg[1], tg[2], rel), a)
+  /\ (rel = SweepFirst) =>                                    \* once: the world itself
+        /\ WorldOk(W4) /\ PositiveHalf(W4) /\ RedirectIndexRule(W4) /\ NoWildcardRule(W4)
+        /\ PrintT(ToJson([routes |-> RouteList, nostar |-> STATIC_NOSTAR, cat |-> <<>>, sizes |-> SizeOf]))
+        /\ PrintT(ToJson([world |-> 4, root |-> W4.root, nodes |-> W4.nodes]))
+  /\ PrintT(ToJson([ r |-> rel, d |-> <<Code(xd)>>, f |-> <<Code(xl)>> ]))
+\* the same properties, named, for the must-violate configurations
+SweepPositive  == (path = SweepFirst) => PositiveHalf(W4)
+SweepPrefix    == PrefixRuleAt(path)
+SweepConfined  == ConfinementAt(SweepWorlds, path)
+SweepConforms  == ModelConformsAt(SweepWorlds, path)
 
 \* data checks evaluated once at start-up
 ASSUME B("a/~") = <<97, 47, 126>> /\ B(" \\\"") = <<32, 92, 34>> /\ Len(Printable) = 95
